@@ -27,7 +27,7 @@ class RangeFor(Rule):
             return "for (size_t %s = 0; %s != %s(&%s); ++%s) { %s %s = %s(&%s, %s);" % (
                 it, it, self.size, m.group(2), it, self.elem, m.group(1), self.at, m.group(2), it)
 
-        text = re.sub(r"\bfor\s*\(\s*auto\s*(?:const\s*)?&{1,2}\s*(\w+)\s*:\s*(\w+)\s*\)\s*\{", rep, text)
+        text = re.sub(r"\bfor\s*\(\s*auto\s*(?:const\s*)?&{1,2}\s*(\w+)\s*:\s*((?:\w+(?:\.|->))*\w+)\s*\)\s*\{", rep, text)
         self.check(k[0], "RangeFor")
         return text
 
@@ -194,11 +194,11 @@ def shared_units(name, c):
     # (i) predecessor receiver
     for sig, loc in [("value", c["set_value"]), ("error", r"void set_error\(Error&& error\) && noexcept"), ("stopped", r"void set_stopped\(\) && noexcept")]:
         us.append(Unit("%s.recv.set_%s" % (name, sig), "shared.c", defines=D + ["U_RECV", "U_RECV_" + sig.upper()], enforce="pr_set_" + sig,
-                       lifts={"body_recv_" + sig: Lift(src, loc, rules=RECV_RULES)}, funcs=[where + c["recv_struct"] + "::set_" + sig], min_obligations=8,
+                       lifts={"body": Lift(src, loc, rules=RECV_RULES)}, funcs=[where + c["recv_struct"] + "::set_" + sig], min_obligations=8,
                        doc="(i) a non-monostate alternative of the right kind is stored in v before set_predecessor_done is called (once)"))
     # (ii) set_predecessor_done
     us.append(Unit(name + ".set_predecessor_done", "shared.c", defines=D + ["U_SPD"], enforce="set_predecessor_done",
-                   lifts={"body_spd": Lift(src, r"void set_predecessor_done\(\)", rules=spd_rules(kind, member),
+                   lifts={"body": Lift(src, r"void set_predecessor_done\(\)", rules=spd_rules(kind, member),
                                        loops=({1: c["loop"], "count": 1} if c["loop"] else {"count": 0}))},
                    funcs=[where + "set_predecessor_done"], min_obligations=20,
                    doc="(ii) os reset, done published, lock cycle, then every stored continuation exactly once, container emptied; "
@@ -218,17 +218,17 @@ def shared_units(name, c):
         DS = base + ["PRED_SENDS_STOPPED=%d" % ss]
         sfx = "" if ss else ".nostop"
         us.append(Unit(name + ".add_continuation" + sfx, "shared.c", defines=DS + ["U_ADD"], enforce="add_continuation",
-                       lifts=dict(vis, body_add=Lift(src, r"void add_continuation\(Receiver& receiver\)", rules=add_rules(kind, member))),
+                       lifts=dict(vis, body=Lift(src, r"void add_continuation\(Receiver& receiver\)", rules=add_rules(kind, member))),
                        funcs=[where + "add_continuation"] + vfuncs, min_obligations=30,
                        doc="(iii) exactly one of {deliver inline, store}; store only under the lock after re-reading done == false; inline "
                            "delivery of the alternative recorded in v; visiting monostate unreachable"))
         us.append(Unit(name + ".continuation" + sfx, "shared.c", defines=DS + ["U_CONT"], enforce="continuation_body",
-                       lifts=dict(vis, body_cont=Lift(src, r"\[this, &receiver\]\(\) mutable", rules=[THIS, VISIT, Members(["v"])])),
+                       lifts=dict(vis, body=Lift(src, r"\[this, &receiver\]\(\) mutable", rules=[THIS, VISIT, Members(["v"])])),
                        funcs=[where + "add_continuation (stored lambda)"] + vfuncs, min_obligations=10,
                        doc="(iii) the stored continuation delivers the alternative recorded in v, once"))
     # (iv) start
     us.append(Unit(name + ".start", "shared.c", defines=D + ["U_START"], enforce="ss_start_impl",
-                   lifts={"body_start": Lift(src, r"void start\(\) & noexcept", expect=2, which=0, rules=[
+                   lifts={"body": Lift(src, r"void start\(\) & noexcept", expect=2, which=0, rules=[
                        Call(r"\bstart_called\.exchange", "atomic_exchange_bool(&self->start_called, {0})", None),
                        Members(["start_called"], optional=["start_called"]),
                        Sub(r"\bos\.has_value\(\)", "os_has_value(self)", None),
@@ -236,7 +236,7 @@ def shared_units(name, c):
                        Call(r"pika::execution::experimental::start", "pred_start({0})", None)])},
                    funcs=[where + "start"], min_obligations=8, doc="(iv) the predecessor is started at most once (exchange(true))"))
     us.append(Unit(name + ".op_start", "shared.c", defines=D + ["U_OP_START"], enforce="op_start",
-                   lifts={"body_opstart": Lift(src, r"void start\(\) & noexcept", expect=2, which=1, rules=[
+                   lifts={"body": Lift(src, r"void start\(\) & noexcept", expect=2, which=1, rules=[
                        Sub(r"(?<![\w.>])state->", "ops_state(self)->", None),
                        Call(r"ops_state\(self\)->start", "ss_start(ops_state(self))", None),
                        Call(r"ops_state\(self\)->(?:template\s+)?add_continuation(?:<\w+>)?", "ss_add_continuation(ops_state(self), &({0}))", None),
@@ -362,13 +362,13 @@ def join_units():
             D = ["WA_VECTOR=%d" % vec, "PRED_SENDS_STOPPED=%d" % stop, "IS_VOID_VALUE=%d" % void]
             if sfx != ".nostop":
                 for sig, loc in [("value", sv), ("error", r"void set_error\(Error&& error\) && noexcept"), ("stopped", r"void set_stopped\(\) && noexcept")]:
-                    lifts = {"body_recv_" + sig: Lift(src, loc, rules=WA_RECV_RULES)}
+                    lifts = {"body": Lift(src, loc, rules=WA_RECV_RULES)}
                     if sig == "value" and not vec:
                         lifts["recv_helper"] = Lift(src, r"auto set_value_helper\(pika::util::detail::index_pack<Is\.\.\.>, Ts&&\.\.\. ts\)", rules=WA_HELPER_RULES)
                     us.append(Unit("%s.recv.set_%s%s" % (name, sig, sfx), "join.c", defines=D + ["U_WA_RECV", "U_WA_RECV_" + sig.upper()], enforce="war_set_" + sig,
                                    lifts=lifts, funcs=["%s: %s::set_%s" % (src, rname, sig)], min_obligations=10,
                                    doc="each receiver signal calls finish() exactly once (all paths); first error wins through exchange and is stored before finish()"))
-            lifts = {"body_finish": Lift(src, r"void finish\(\) noexcept", rules=WA_FINISH_RULES + WA_TS,
+            lifts = {"body": Lift(src, r"void finish\(\) noexcept", rules=WA_FINISH_RULES + WA_TS,
                                          loops=({1: LOOP_WAV_FINISH, "count": 1} if vec else {"count": 0}))}
             if not vec:
                 lifts["op_helper"] = Lift(src, r"void set_value_helper\(\s*pika::util::detail::member_pack<", rules=WA_FINISH_RULES)
@@ -378,7 +378,7 @@ def join_units():
                            doc="downstream signalled iff the decrement reaches 0: value iff nothing latched, the stored error iff one was stored, stopped otherwise"))
             if vec and sfx != ".nostop":
                 us.append(Unit("%s.start%s" % (name, sfx), "join.c", defines=D + ["U_WAV_START"], enforce="wav_start",
-                               lifts={"body_start": Lift(src, r"void start\(\) & noexcept", rules=WA_FINISH_RULES + [
+                               lifts={"body": Lift(src, r"void start\(\) & noexcept", rules=WA_FINISH_RULES + [
                                    Sub(r"\bop_states\[(\w+)\]\.has_value\(\)", r"opstates_has(self, \1)", None),
                                    Sub(r"\*\(op_states\.get\(\)\[(\w+)\]\)", r"opstates_deref(self, \1)", None),
                                    Call(r"pika::execution::experimental::start", "child_start({0})", None)] + WA_TS,
@@ -388,10 +388,315 @@ def join_units():
 
 
 UNITS += join_units()
+for _w, _d in ((0, 0), (1, 1)):
+    UNITS.append(Unit("when_all.start.%s" % ("derived" if _d else "base"), "join.c", defines=["WA_VECTOR=0", "PRED_SENDS_STOPPED=1", "IS_VOID_VALUE=0", "U_WA_START", "WA_DERIVED=%d" % _d],
+                      enforce="wa_start", lifts={"body": Lift(WA, r"void start\(\) & noexcept", expect=2, which=_w, rules=[
+                          Sub(r"\bbase_type::start\(\);", "wa_base_start(self);", None),
+                          Call(r"pika::execution::experimental::start", "wa_child_start(self)", None)])},
+                      funcs=[WA + ": when_all operation_state<..., %s>::start" % ("I" if _d else "0")], min_obligations=2))
+UNITS.append(Unit("shared.lemma_L3", "lemma.c", kind="lemma", loop_contracts=False, min_obligations=4,
+                  doc="lemma over contracts (ii)+(iii): whatever the interleaving of one consumer's add_continuation with the predecessor's "
+                      "set_predecessor_done, the consumer is signalled exactly once (stored => stored before the predecessor's lock cycle)"))
+
+# ---------------------------------------------------------------------------------------------------------------
+# unit groups 3-5: exception-wrapping adaptors, schedule_from, start_detached, pure forwarders (one table)
+
+
+class TryCatchEP(Rule):
+    """pika::detail::try_catch_exception_ptr([&]() { A }, [&](std::exception_ptr X) { B });
+    ->  try { A } catch (...) { int X = vx_current_exception(); B }
+    (contract of the helper, proved as unit errors.try_catch_exception_ptr: t once; c iff t threw, with that exception)"""
+
+    def __init__(self, n=None):
+        self.n = n
+
+    def apply(self, text):
+        k = 0
+        rx = re.compile(r"pika::detail::try_catch_exception_ptr\s*\(")
+        while True:
+            m = rx.search(text)
+            if not m:
+                break
+            op = m.end() - 1
+            cl = match_close(text, op)
+            inner = text[op + 1:cl]
+            m1 = re.match(r"\s*\[&\]\s*\(\s*\)\s*\{", inner)
+            if not m1:
+                raise LiftError("TryCatchEP: first argument is not a [&]() lambda")
+            a0 = m1.end() - 1
+            a1 = match_close(inner, a0, "{", "}")
+            m2 = re.match(r"\s*,\s*\[&\]\s*\(\s*std::exception_ptr\s+(\w+)\s*\)\s*\{", inner[a1 + 1:])
+            if not m2:
+                raise LiftError("TryCatchEP: second argument is not a [&](std::exception_ptr x) lambda")
+            b0 = a1 + 1 + m2.end() - 1
+            b1 = match_close(inner, b0, "{", "}")
+            if inner[b1 + 1:].strip():
+                raise LiftError("TryCatchEP: trailing text")
+            end = cl + 1
+            ms = re.match(r"\s*;", text[end:])
+            if ms:
+                end += ms.end()
+            text = text[:m.start()] + "try { %s } catch (...) { int %s = vx_current_exception(); %s }" % (
+                inner[a0 + 1:a1], m2.group(1), inner[b0 + 1:b1]) + text[end:]
+            k += 1
+        self.check(k, "TryCatchEP")
+        return text
+
+
+def unwrap_with_result_of(args, env):
+    m = re.match(r"\s*\[&\]\s*\(\s*\)\s*(?:mutable\s*)?\{\s*return\s+(.*);\s*\}\s*$", args[0], re.S)
+    if not m:
+        raise LiftError("with_result_of: argument is not [&]() { return E; }")
+    return m.group(1)
+
+
+def visit_generic(prop):
+    """pika::detail::visit(VISITOR[<..>]{ctor args}, variant) -> visit_VISITOR([ctor args,] &(variant)); an exception raised
+    inside the visitor propagates"""
+    def tmpl(args, env):
+        m = re.match(r"\s*(\w+)(?:<[^{}]*>)?\s*\{\s*([^{}]*?)\s*\}\s*,\s*(.*)$", env["args"], re.S)
+        if not m:
+            raise LiftError("visit: %r" % env["args"][:80])
+        name, ctor, var = m.groups()
+        return "visit_%s(%s&(%s)); if (vx_exc) %s" % (name, (ctor + ", ") if ctor else "", var.strip(), prop)
+    return tmpl
+
+
+def throwing(call, prop):
+    return "({ int vx_v = %s; if (vx_exc) %s; vx_v; })" % (call, prop)
+
+
+EMPLACE_T = r"\.template emplace<(?:[^<>()]|<(?:[^<>()]|<[^<>()]*>)*>)*>"
+
+
+def chan_rules(prop, members=()):
+    """prop: how an exception leaves the lifted text: 'VX_THROW_NOW' (inside a lowered try / noexcept body) or 'return'"""
+    return [
+        TryCatchEP(None),
+        Sub(r"auto (\w+) = std::move\(\*this\);", r"struct rcv \1 = *self;", None),
+        Sub(r"\b(\w+)\.op_state\.", r"\1.op_state->", None),
+        FWD, Sub(r"\b(ts|us)\s*\.\.\.", r"\1", None),
+        Sub(r"std::is_void_v<std::invoke_result_t<F, Ts\.\.\.>>", "F_RETURNS_VOID", None),
+        Sub(r"std::is_same_v<std::decay_t<Error>, std::exception_ptr>", "ERROR_IS_EPTR", None),
+        DropStmt(r"using operation_state_type =\s*decltype", None),
+        Call(r"pika::detail::with_result_of", unwrap_with_result_of, None),
+        Call(r"\bPIKA_INVOKE", throwing("invoke_f({args})", prop), None),
+        Call(r"std::apply(?=\(std::move\(\w+(?:->|\.)f\))", throwing("invoke_f({args})", prop), None),
+        # parked payloads / local decay copies
+        Sub(r"\b((?:\w+(?:\.|->))*(?:predecessor_ts|predecessor_error|ts))" + EMPLACE_T + r"\(\s*(\w+)\s*\);",
+            r"{ variant_emplace(&\1, \2); if (vx_exc) %s; }" % prop, None),
+        Sub(r"auto (\w+) = (\w+);", r"int \1 = " + throwing(r"decay_copy(\2)", prop) + ";", None),
+        Sub(r"std::tuple<std::decay_t<Ts>\.\.\.>\s+(\w+)\((\w+)\);", r"int \1 = " + throwing(r"decay_copy(\2)", prop) + ";", None),
+        # successor / scheduler / child operation states
+        Call(r"pika::execution::experimental::connect(?=\(\s*pika::execution::experimental::schedule)", "sched_connect({0}, {1})", None),
+        Call(r"pika::execution::experimental::schedule", "sched_schedule({0})", None),
+        Sub(r"scheduler_sender_receiver\{\*this\}", "self", None),
+        Call(r"pika::execution::experimental::connect", throwing("sr_connect({0}, {1})", prop), None),
+        Sub(r"\b((?:\w+(?:\.|->))*successor_op_state)\.template emplace<operation_state_type>\(", r"succ_emplace(&\1, ", None),
+        Call(r"\bscheduler_op_state\.emplace", "sched_emplace(self, {0})", None),
+        Sub(r"\bscheduler_op_state\.reset\(\);", "sched_reset(self);", None),
+        Sub(r"\*scheduler_op_state\b", "sched_deref(self)", None),
+        Call(r"pika::execution::experimental::start(?=\(\s*sched_deref)", "sched_start({0})", None),
+        Sub(r"\b(\w+)\.op_state->op_state\.reset\(\);", r"os_reset(\1.op_state);", None),
+        Sub(r"\b(\w+)\.op_state->op_state\.has_value\(\)", r"os_has_value(\1.op_state)", None),
+        Sub(r"(?<![\w.>])op_state\.has_value\(\)", "os_has_value(self)", None),
+        Sub(r"\*\(op_state\)", "os_deref(self)", None),
+        Call(r"pika::execution::experimental::start(?=\(\s*os_deref)", "child_start({0})", None),
+        Call(r"pika::execution::experimental::start(?=\(\s*op_state\s*\))", "succ_start({0})", None),
+        Call(r"pika::detail::visit", visit_generic(prop), None),
+        Call(r"\b(\w+)\.op_state->(set_(?:value|error|stopped)_(?:predecessor|scheduler)_sender)",
+             lambda args, env: "op_method(%s.op_state, M_%s, %s)" % (env["h1"], env["h2"], args[0] if args and args[0] else "0"), None),
+        Sub(r"std::current_exception\(\)", "vx_current_exception()", None),
+        # start_detached
+        Call(r"\b(\w+)\.op_state->release", "holder_release({h1}.op_state)", None),
+        Sub(r"std::rethrow_exception\((\w+)\);", r"{ vx_terminate(); return; }", None),
+        Sub(r"std::terminate\(\);", "{ vx_terminate(); return; }", None),
+        Call(r"PIKA_ASSERT_MSG(?=\(\s*false)", "vx_terminate()", None),
+        # just: set_value(std::move(receiver), std::move(ts).template get<Is>()...)
+        Sub(r"std::move\(ts\)\.template get<Is>\(\)\s*\.\.\.", "VX_PACK(ts)", None),
+        SETSIG] + BIND_APPLY + [
+        Sub(r"std::move\(((?:\w+(?:\.|->))*receiver)\)", r"&\1", None),
+        RangeFor(None, size="shape_size", at="shape_at", elem="size_t"),
+        TryCatch(None),
+    ] + ([Members(list(members), optional=list(members))] if members else [])
+
+
+LOOP_BULK = """
+__CPROVER_assigns(vx_it1, vx_exc, g_thrown_tok, g_f_arg, g_f_index, g_f_calls_victim)
+__CPROVER_loop_invariant(vx_it1 <= r.shape.n && !vx_exc && g_f_calls_victim == (g_victim < vx_it1 ? 1 : 0))
+"""
+SE = r"void set_error\(Error&& error\) && noexcept"
+SS = r"void set_stopped\(\) && noexcept"
+SV = r"void set_value\(Ts&&\.\.\. ts\) && noexcept"
+ASV = r"auto set_value\(Ts&&\.\.\. ts\) && noexcept"
+OPM = ["receiver", "ts", "scheduler", "started"]
+
+# name, file, locator, kind, SELF_T, PNAME, extra defines (table: what the adaptor denotes for this upstream signal), lift kwargs
+def FW(out, payload, resets=0, in_tok=None, catch=0, parked=0):
+    return dict(OUT_CH=out, OUT_PAYLOAD=payload, RESETS_OS=resets, IN_TOK=in_tok, MAY_CATCH=catch, PARKED_IN_TS=parked)
+
+
+CHAN = [
+    # --- then
+    ("then.set_value", "then.hpp", SV, "C_THEN", "rcv", "ts", dict(F_RETURNS_VOID=0), {}),
+    ("then.set_value.void", "then.hpp", SV, "C_THEN", "rcv", "ts", dict(F_RETURNS_VOID=1), {}),
+    ("then.set_error", "then.hpp", SE, "C_FWD", "rcv", "error", FW(2, 1), {}),
+    ("then.set_stopped", "then.hpp", SS, "C_FWD", "rcv", "vx_unused", FW(3, 0), {}),
+    # --- bulk (generic loop)
+    ("bulk.set_value", "bulk.hpp", SV, "C_BULK", "rcv", "ts", {}, dict(loops={1: LOOP_BULK, "count": 1})),
+    ("bulk.set_error", "bulk.hpp", SE, "C_FWD", "rcv", "error", FW(2, 1), {}),
+    ("bulk.set_stopped", "bulk.hpp", SS, "C_FWD", "rcv", "vx_unused", FW(3, 0), {}),
+    # --- let_value / let_error
+    ("let_value.set_value", "let_value.hpp", ASV, "C_LET", "rcv", "ts", dict(PARK="predecessor_ts", ALT_PARAM="t"), dict(let="value")),
+    ("let_value.set_error", "let_value.hpp", SE, "C_FWD", "rcv", "error", FW(2, 1), {}),
+    ("let_value.set_stopped", "let_value.hpp", SS, "C_FWD", "rcv", "vx_unused", FW(3, 0), {}),
+    ("let_error.set_error", "let_error.hpp", SE, "C_LET", "rcv", "error", dict(PARK="predecessor_error", ALT_PARAM="error"), dict(let="error")),
+    ("let_error.set_value", "let_error.hpp", SV, "C_FWD", "rcv", "ts", FW(1, 1), {}),
+    ("let_error.set_stopped", "let_error.hpp", SS, "C_FWD", "rcv", "vx_unused", FW(3, 0), {}),
+    # --- schedule_from (= continues_on's fallback)
+    ("schedule_from.pred.set_value", "schedule_from.hpp", r"void set_value_predecessor_sender\(Us&&\.\.\. us\) noexcept", "C_SF_PARK", "op", "us", dict(PAYLOAD_COPY_NOTHROW=1), dict(members=OPM)),
+    ("schedule_from.pred.set_error", "schedule_from.hpp", r"void set_error_predecessor_sender\(Error&& error\) noexcept", "C_FWD", "op", "error", FW(2, 1), dict(members=OPM)),
+    ("schedule_from.pred.set_stopped", "schedule_from.hpp", r"void set_stopped_predecessor_sender\(\) noexcept", "C_FWD", "op", "vx_unused", FW(3, 0), dict(members=OPM)),
+    ("schedule_from.sched.set_value", "schedule_from.hpp", r"void set_value_scheduler_sender\(\) noexcept", "C_FWD", "op", "vx_unused",
+     dict(FW(1, 1, resets=1, in_tok="vx_op->ts.tok", parked=1), C_SF_DELIVER=1), dict(members=OPM, sf_deliver=True)),
+    ("schedule_from.sched.set_error", "schedule_from.hpp", r"void set_error_scheduler_sender\(Error&& error\) noexcept", "C_FWD", "op", "error", FW(2, 1, resets=1), dict(members=OPM)),
+    ("schedule_from.sched.set_stopped", "schedule_from.hpp", r"void set_stopped_scheduler_sender\(\) noexcept", "C_FWD", "op", "vx_unused", FW(3, 0, resets=1), dict(members=OPM)),
+    ("schedule_from.pred_recv.set_value", "schedule_from.hpp", ASV, "C_TRAMP", "rcv", "ts", dict(EXPECT_M="M_set_value_predecessor_sender", OUT_PAYLOAD=1), {}),
+    ("schedule_from.pred_recv.set_error", "schedule_from.hpp", SE, "C_TRAMP", "rcv", "error", dict(EXPECT_M="M_set_error_predecessor_sender", OUT_PAYLOAD=1), dict(expect=2, which=0)),
+    ("schedule_from.pred_recv.set_stopped", "schedule_from.hpp", SS, "C_TRAMP", "rcv", "vx_unused", dict(EXPECT_M="M_set_stopped_predecessor_sender"), dict(expect=2, which=0)),
+    ("schedule_from.sched_recv.set_value", "schedule_from.hpp", r"void set_value\(\) && noexcept", "C_TRAMP", "rcv", "vx_unused", dict(EXPECT_M="M_set_value_scheduler_sender"), {}),
+    ("schedule_from.sched_recv.set_error", "schedule_from.hpp", SE, "C_TRAMP", "rcv", "error", dict(EXPECT_M="M_set_error_scheduler_sender", OUT_PAYLOAD=1), dict(expect=2, which=1)),
+    ("schedule_from.sched_recv.set_stopped", "schedule_from.hpp", SS, "C_TRAMP", "rcv", "vx_unused", dict(EXPECT_M="M_set_stopped_scheduler_sender"), dict(expect=2, which=1)),
+    # --- start_detached
+    ("start_detached.set_value", "start_detached.hpp", r"void set_value\(Ts&&\.\.\.\) && noexcept", "C_SD", "rcv", "vx_unused", {}, {}),
+    ("start_detached.set_stopped", "start_detached.hpp", SS, "C_SD", "rcv", "vx_unused", {}, {}),
+    ("start_detached.set_error.eptr", "start_detached.hpp", SE, "C_SD", "rcv", "error", dict(ERROR_IS_EPTR=1), {}),
+    ("start_detached.set_error.other", "start_detached.hpp", SE, "C_SD", "rcv", "error", dict(ERROR_IS_EPTR=0), {}),
+    # --- pure forwarders
+    ("drop_value.set_value", "drop_value.hpp", r"void set_value\(Ts&&\.\.\.\) && noexcept", "C_FWD", "rcv", "vx_unused", FW(1, 0), {}),
+    ("drop_value.set_error", "drop_value.hpp", SE, "C_FWD", "rcv", "error", FW(2, 1), {}),
+    ("drop_value.set_stopped", "drop_value.hpp", SS, "C_FWD", "rcv", "vx_unused", FW(3, 0), {}),
+    ("unpack.set_value", "unpack.hpp", r"void set_value\(Ts&& ts\) && noexcept", "C_FWD", "rcv", "ts", FW(1, 1), {}),
+    ("unpack.set_error", "unpack.hpp", SE, "C_FWD", "rcv", "error", FW(2, 1), {}),
+    ("unpack.set_stopped", "unpack.hpp", SS, "C_FWD", "rcv", "vx_unused", FW(3, 0), {}),
+    ("require_started.set_value", "require_started.hpp", SV, "C_FWD", "rcv", "ts", FW(1, 1), {}),
+    ("require_started.set_error", "require_started.hpp", SE, "C_FWD", "rcv", "error", FW(2, 1), {}),
+    ("require_started.set_stopped", "require_started.hpp", SS, "C_FWD", "rcv", "vx_unused", FW(3, 0), {}),
+    ("require_started.start", "require_started.hpp", r"void start\(\) & noexcept", "C_CHILD_START", "op", "vx_unused", dict(SETS_STARTED=1), dict(members=OPM)),
+    ("drop_operation_state.set_value", "drop_operation_state.hpp", SV, "C_FWD", "rcv", "ts", FW(1, 1, resets=1, catch=1), {}),
+    ("drop_operation_state.set_error", "drop_operation_state.hpp", SE, "C_FWD", "rcv", "error", FW(2, 1, resets=1, catch=1), {}),
+    ("drop_operation_state.set_stopped", "drop_operation_state.hpp", SS, "C_FWD", "rcv", "vx_unused", FW(3, 0, resets=1), {}),
+    ("drop_operation_state.start", "drop_operation_state.hpp", r"void start\(\) & noexcept", "C_CHILD_START", "op", "vx_unused", dict(SETS_STARTED=0), dict(members=OPM)),
+    ("just.start", "just.hpp", r"void start\(\) & noexcept", "C_FWD", "op", "vx_unused", FW(1, 1, in_tok="vx_op->ts.tok", parked=1), dict(members=OPM)),
+]
+
+LET_VIS = {
+    "value": dict(mono=r"void operator\(\)\(pika::detail::monostate\) const", alt=r"void operator\(\)\(T& t\)"),
+    "error": dict(mono=r"void operator\(\)\(pika::detail::monostate\) const", alt=r"void operator\(\)\(Error& error\)"),
+}
+
+
+def chan_units():
+    us = []
+    for (name, f, loc, kind, selft, pname, defs, kw) in CHAN:
+        src = ALG + f
+        D = [kind, "SELF_T=" + selft, "PNAME=" + pname]
+        d = dict(EXPECT_M=0, PAYLOAD_COPY_NOTHROW=0, OUT_CH=0, OUT_PAYLOAD=0, RESETS_OS=0, MAY_CATCH=0, PARKED_IN_TS=0, IN_TOK=None, F_RETURNS_VOID=0, ERROR_IS_EPTR=0, SETS_STARTED=0)
+        d.update(defs)
+        if d["IN_TOK"] is None:
+            d["IN_TOK"] = pname
+        D += ["%s=%s" % (k, v) for k, v in sorted(d.items())]
+        members = kw.get("members", ())
+        lifts = {"body": Lift(src, loc, rules=chan_rules("VX_THROW_NOW", members), loops=kw.get("loops"), expect=kw.get("expect", 1), which=kw.get("which", 0))}
+        funcs = ["%s: %s" % (src, name)]
+        if kw.get("let"):
+            v = LET_VIS[kw["let"]]
+            vr = chan_rules("return") + [Sub(r"(?<![\w.>])op_state->", "self->op_state->", None)]
+            lifts["ovis_monostate"] = Lift(src, v["mono"], rules=vr)
+            lifts["ovis_alt"] = Lift(src, v["alt"], rules=[Sub(r"(?<![\w.>])op_state\.", "op_state->", None)] + vr)
+            lifts["svis_monostate"] = Lift(src, r"void PIKA_STATIC_CALL_OPERATOR\(pika::detail::monostate\)", rules=vr)
+            lifts["svis_alt"] = Lift(src, r"void PIKA_STATIC_CALL_OPERATOR\(OperationState_& op_state\)", rules=chan_rules("return"))
+            funcs.append("%s: set_%s_visitor::operator() (2 overloads), start_visitor::operator() (2 overloads)" % (src, kw["let"]))
+        if kw.get("sf_deliver"):
+            vr = chan_rules("return", ["receiver"])
+            lifts["ssvv_monostate"] = Lift(src, r"void operator\(\)\(pika::detail::monostate\) const", rules=vr)
+            lifts["ssvv_alt"] = Lift(src, r"void operator\(\)\(Ts&& ts\)", rules=vr)
+            funcs.append("%s: scheduler_sender_value_visitor::operator() (2 overloads)" % src)
+        us.append(Unit(name, "chan.c", defines=D, enforce="fn", lifts=lifts, funcs=funcs, min_obligations=5))
+    us.append(Unit("errors.try_catch_exception_ptr", "chan.c", defines=["C_TCEP", "SELF_T=op", "PNAME=vx_unused"], enforce="try_catch_exception_ptr",
+                   lifts={"body": Lift("libs/pika/errors/include/pika/errors/try_catch_exception_ptr.hpp", r"decltype\(auto\) try_catch_exception_ptr\(TryCallable&& t, CatchCallable&& c\)", rules=[
+                       Sub(r"std::exception_ptr (\w+);", r"int \1 = 0;", None),
+                       Sub(r"return t\(\);", "{ t_call(); if (vx_exc) VX_THROW_NOW; return; }", None),
+                       Sub(r"(?<![\w.>])t\(\);", "{ t_call(); if (vx_exc) VX_THROW_NOW; }", None),
+                       Sub(r"std::current_exception\(\)", "vx_current_exception()", None),
+                       Sub(r"return c\(std::move\((\w+)\)\);", r"{ c_call(\1); return; }", None),
+                       TryCatch(None)])},
+                   funcs=["libs/pika/errors/include/pika/errors/try_catch_exception_ptr.hpp: pika::detail::try_catch_exception_ptr"], min_obligations=4))
+    return us
+
+
+UNITS += chan_units()
 
 META = {
-    "explanation": "",
-    "trusted_base": [],
-    "assumptions": [],
-    "not_decided": [],
+    "explanation":
+        "C03 is decided on the bookkeeping member functions of the adaptors, lifted one by one; payloads, callables, senders, "
+        "schedulers, exceptions and child operation states are opaque tokens, pika::detail::variant is (index, token), std::optional "
+        "is a flag, the downstream receiver is a T-stub that counts set_value/set_error/set_stopped and asserts 'at most once', "
+        "'the connected receiver', 'not after it was moved away'.  "
+        "Group 1 (shared.c, split/split_tuple/ensure_started, one rule set): (i) predecessor receiver stores the right alternative "
+        "before set_predecessor_done; (ii) set_predecessor_done: order ghost g_phase (os reset < done published < lock taken < lock "
+        "released < continuations), one symbolic victim slot for 'every stored continuation exactly once', loop contract over the "
+        "container; (iii) add_continuation under interference (the predecessor may complete before every flag read, other consumers "
+        "may store before the lock is acquired), lifted visitor overloads, the stored lambda as its own unit; (iv) start() as an "
+        "S-contract on start_called; lemma L3 composes (ii)+(iii).  A life-time ghost g_alive makes 'nothing is touched after the "
+        "operation/shared state may have been destroyed' an obligation of every stub.  "
+        "Group 2 (join.c, when_all/when_all_vector): receiver signals against a finish() T-stub that records what the last finisher "
+        "will find; finish() against a decrement stub with interference (S-contract), values through one symbolic slot; lowered "
+        "try/catch.  Group 3-5 (chan.c): one table (CHAN) of (function, channel it denotes, payload, child-operation reset) -> "
+        "contracts C_FWD / C_THEN / C_BULK / C_LET / C_SF_PARK / C_SD / C_CHILD_START / C_TRAMP; try_catch_exception_ptr is lowered "
+        "at its call sites by rule TryCatchEP and proved separately (errors.try_catch_exception_ptr).  "
+        "Expected on the unchanged tree: split.recv.set_stopped and split_tuple.recv.set_stopped FAIL (defect D3: done is published "
+        "with v == monostate); split_tuple.set_predecessor_done FAILS its life-time obligations (the predecessor receiver holds only "
+        "a reference to the shared state, see report).",
+    "trusted_base": [
+        "specs/C03/join.h atomic_dec_fetch: three VX_ASSUMEs at the moment OUR decrement reaches 0 -- J1 'flag clear => every slot "
+        "stored', J2 'flag set => an error is stored or some predecessor signalled stopped' (both are the postconditions of units "
+        "when_all*.recv.* for every other receiver, each of which calls finish() as its last action), J3 'a predecessor whose "
+        "sender_traits say sends_done == false never calls set_stopped' (well-typedness of the pipeline)",
+        "specs/C03/shared.h env_predecessor_may_complete / env_consumers_store / env_may_release / atomic_exchange_bool: the "
+        "environment of one agent -- the predecessor completes at most once and stores a non-monostate alternative before it "
+        "publishes predecessor_done (= contract (i)); other consumers store only under the lock having re-read done == false "
+        "(= contract (iii)); ensure_started has a single consumer, split_tuple one consumer per Index; the shared state stays alive "
+        "only while the agent holds a reference or a not-yet-signalled consumer exists",
+        "specs/C03/shared.h, join.h, chan.h receiver stubs: downstream receivers and successor/child operation states honour their "
+        "own contract (exactly one completion; induction over the pipeline term); a receiver's completion may destroy the operation "
+        "state that owns it",
+        "std::visit / pika::detail::visit = call of the overload for the active alternative (hand-written dispatch stubs visit_*); "
+        "std::apply(bind_front(f, a), t) = f(a, t...); std::optional / small_vector / std::array<unique_function> / member_pack "
+        "modelled as flags, lengths and one symbolic victim slot",
+        "vx/prelude/monitor.h: spinlock + std::unique_lock/std::lock_guard as a ghost 'held' bit (A-LOCK)",
+        "chan.h sr_connect: connect() may throw only before it has consumed the receiver",
+        "lowering rules defined in specs/C03/spec.py: RangeFor, Lambda (closure = captured variables; body lifted as unit "
+        "*.continuation), VisitLambda, TryCatchEP (relies on unit errors.try_catch_exception_ptr), statement-expression "
+        "lowering of may-throw calls nested in expressions",
+    ],
+    "assumptions": [
+        "ghost range: continuation container length <= 10^6, when_all slots <= 10^6",
+        "schedule_from.pred.set_value is proved with non-throwing payload copies / schedule / connect (the function is noexcept and "
+        "has no handler: a throwing decay-copy there is std::terminate, not set_error -- observation, not counted as a violation)",
+        "exceptions are modelled only where a stub is marked may-throw (user callable, payload decay-copy/emplace, connect, error "
+        "object copy); allocation failure is not modelled",
+        "RECV_HOLDS_PTR (does the predecessor receiver own a reference) is read from the member declaration in the source",
+    ],
+    "not_decided": [
+        "type-level part of 'well-typed pipelines' (sender_traits / completion signatures, sends_done constants), value and "
+        "exception identity beyond token passing (moves, std::apply, tuple element order except split_tuple's Index and "
+        "when_all_vector's position)",
+        "destructor-exactly-once for objects whose life time is implicit C++ scope; intrusive_ptr_release / allocator bookkeeping of "
+        "the shared states; constructors (connect of the predecessor, ensure_started's eager start in the sender constructor)",
+        "sync_wait, any_sender (C18), require_started's unstarted detection in destructors, stdexec configuration (PIKA_HAVE_STDEXEC off)",
+        "inner value variant of ensure_started/schedule_from (monostate overload of value_visitor) beyond the outer alternative",
+        "all-schedules statement: per-agent obligations + lemma L3 are machine checked, the induction over the history is the paper "
+        "argument of DESIGN 3.4",
+    ],
 }
